@@ -51,6 +51,9 @@ type c16Case struct {
 	// ListenerClosedError: how the listener handed to the server reports that it was closed: "" = *net.OpError wrapping
 	// net.ErrClosed (the net package), bare = net.ErrClosed itself, wrapped = fmt.Errorf("...%w", net.ErrClosed)
 	ListenerClosedError string `json:"listener_reports_closure_as,omitempty"`
+	// ListenerCloseFails: the listener's Close does close it but reports an error of its own (Shutdown may hand that error
+	// on; everything it promises about the state after its return holds all the same)
+	ListenerCloseFails bool `json:"listener_close_reports_an_error,omitempty"`
 }
 
 type ctxConnID struct{}
@@ -148,6 +151,9 @@ func c16Bubble(c c16Case) c08Result {
 	}))
 	ln := memnet.NewListener()
 	ln.ClosedErr = c.ListenerClosedError
+	if c.ListenerCloseFails {
+		ln.CloseErr = errors.New("memnet: listener closed, but its socket file could not be removed")
+	}
 	connectHook := kmipserver.ConnectHook(func(ctx context.Context) (context.Context, error) {
 		lg.mu.Lock()
 		if lg.shutdownReturned {
@@ -409,7 +415,7 @@ func c16Bubble(c c16Case) c08Result {
 	lg.shutdownReturned = true
 	running := lg.running
 	lg.mu.Unlock()
-	if serr != nil {
+	if serr != nil && !(c.ListenerCloseFails && strings.Contains(serr.Error(), "socket file could not be removed")) {
 		return fail("shutdown-error", "%v", serr)
 	}
 	// at the instant Shutdown returns
@@ -530,7 +536,7 @@ func c16Bubble(c c16Case) c08Result {
 func TestC16Shutdown(t *testing.T) {
 	const name = "TestC16Shutdown"
 	rec := evid.New("C16", name, "0..6 connections, each in a drawn phase when Shutdown is called (idle, partial message sent, request in a handler of 0 / 1 s / 2.9 s / 3.1 s / 10 s honouring or ignoring its context (optionally with the next request already sent and waiting in the server's read loop), response blocked on a non-reading client, "+
-		"connecting during shutdown, accepted but not yet registered by the accept loop when Shutdown starts (the loop is held at a yield point and released once Shutdown waits or has returned), already closed, connect hook failing, connected to a TLS listener without ever sending a byte of the handshake, silent but still connected after having sent something that is not a request message (a response message, another structure, a header announcing 2 MiB) and read the server's answer), on a plain or (one case in three) a TLS listener whose Accept reports the closure as a *net.OpError, as net.ErrClosed itself or as an error wrapping it, optionally a second, overlapping Shutdown call 1 / 500 / 2000 / 3500 ms after the first, with 0..2 completed requests before and an optional client action (send more / close) at 0.5 / 2 / 3.5 s after shutdown began; synctest bubble (the 3 s grace period is exact and free); "+
+		"connecting during shutdown, accepted but not yet registered by the accept loop when Shutdown starts (the loop is held at a yield point and released once Shutdown waits or has returned), already closed, connect hook failing, connected to a TLS listener without ever sending a byte of the handshake, silent but still connected after having sent something that is not a request message (a response message, another structure, a header announcing 2 MiB) and read the server's answer), on a plain or (one case in three) a TLS listener whose Accept reports the closure as a *net.OpError, as net.ErrClosed itself or as an error wrapping it (and whose Close, in a quarter of the cases, closes but reports an error of its own), optionally a second, overlapping Shutdown call 1 / 500 / 2000 / 3500 ms after the first, with 0..2 completed requests before and an optional client action (send more / close) at 0.5 / 2 / 3.5 s after shutdown began; synctest bubble (the 3 s grace period is exact and free); "+
 		"oracle at the instant Shutdown returns and after 5 more seconds: listener closed, Serve returned ErrShutdown, no handler running or started later, census 0, every in-flight request answered or cancelled no earlier than 3 s, exactly one terminate hook per successful connect hook after the connection's last handler, none otherwise; "+
 		"non-trivial = a connection mid-handler and another connection in a different phase; distinct by case").Attach(t)
 	if rp := evid.LoadReplay(name); rp != nil {
@@ -574,6 +580,7 @@ func TestC16Shutdown(t *testing.T) {
 		c.HooksReversed = rapid.Bool().Draw(rt, "hooks-reversed")
 		c.TLS = rapid.IntRange(0, 2).Draw(rt, "tls") == 0
 		c.ListenerClosedError = rapid.SampledFrom([]string{"", "", "bare", "wrapped"}).Draw(rt, "listener-closed-error")
+		c.ListenerCloseFails = rapid.IntRange(0, 3).Draw(rt, "listener-close-fails") == 0
 		key, _ := json.Marshal(c)
 		var labels []string
 		labels = append(labels, fmt.Sprintf("second-shutdown=%v", c.SecondShutdownMs > 0), fmt.Sprintf("hooks-reversed=%v", c.HooksReversed), fmt.Sprintf("tls=%v", c.TLS))
